@@ -158,8 +158,15 @@ class Mod:
         for function in obj.debug_info.functions:
             function_name = function.name
 
-            # Determine the function type:
-            restype = get_ctypes_type(function.return_type)
+            # Determine the function type (a procedure returns nothing):
+            return_type = function.return_type
+            if (
+                isinstance(return_type, debuginfo.DebugBaseType)
+                and return_type.name == "void"
+            ):
+                restype = None
+            else:
+                restype = get_ctypes_type(return_type)
             argtypes = [get_ctypes_type(a.typ) for a in function.arguments]
             logger.debug("function sig %s %s", restype, argtypes)
             ftype = ctypes.CFUNCTYPE(restype, *argtypes)
